@@ -3,7 +3,7 @@
 # Confirms, in a fresh scratch worktree, that the agent's change compiles, keeps the package's own tests green,
 # and that the demonstration passes without the change and fails with it. Removes the worktree afterwards.
 id=$1; pkg=$2; rx=$3; shift 3; extra="$@"
-src=/tmp/wt/$id; wt=/tmp/vs/$id
+src=${SEED_SRC:-/tmp/wt}/$id; wt=/tmp/vs/$id
 export PATH=/root/go/pkg/mod/golang.org/toolchain@v0.0.1-go1.24.1.linux-amd64/bin:$PATH GOTOOLCHAIN=local GOFLAGS=-mod=mod GOPROXY=off GOSUMDB=off
 rm -rf $wt; mkdir -p /tmp/vs; git -C /repo worktree add --detach $wt HEAD -q || exit 2
 for f in $(cd $src && git status --short | grep '^??' | awk '{print $2}' | grep '_test.go$'); do mkdir -p $wt/$(dirname $f); cp $src/$f $wt/$f; done
